@@ -110,9 +110,38 @@ def gen_deep_chain(rng, idx):
             "flags": ["--color=always"] + (["-n"] if rng.random() < 0.5 else []), "color": True, "auto": False}
 
 
+def gen_big_input(rng, idx):
+    """Inputs of 8..200 KiB (beyond one I/O buffer), mostly multi-byte text, so that characters and
+    lines straddle every internal buffer boundary."""
+    pats, alpha = gen_patterns(rng)
+    pats = [q for q in pats if "\r" not in q] or ["ab"]
+    filler = rng.choice(["日本語のテキスト", "żółć gęślą jaźń ", "😀😀😀 emoji ", "plain ascii text ", "é"])
+    target = rng.choice([8192, 8192, 16384, 65536, 200000]) + rng.randint(-40, 40)
+    lines, size = [], 0
+    while size < target:
+        k = rng.random()
+        if k < 0.15:
+            line = filler * rng.randint(0, 4) + rng.choice(pats) + filler * rng.randint(0, 3)
+        elif k < 0.2:
+            line = ""
+        else:
+            line = (filler * rng.randint(1, 12))[rng.randint(0, 2):]
+            for q in pats:
+                line = line.replace(q, "")
+        line = line.replace("\n", "").replace("\r", "")
+        lines.append(line)
+        size += len(line.encode()) + 1
+    stdin_mode = rng.random() < 0.3
+    flags = [rng.choice(["--color=always", "--color=never", "-n"])]
+    return {"idx": idx, "f_pats": pats, "p_pats": [], "stdin": stdin_mode, "inputs": [lines], "names": ["in1.txt"],
+            "flags": flags, "color": flags[0] == "--color=always", "auto": False}
+
+
 def gen_invocation(rng, idx):
     if rng.random() < 0.01:
         return gen_deep_chain(rng, idx)
+    if rng.random() < 0.02:
+        return gen_big_input(rng, idx)
     pats, alpha = gen_patterns(rng)
     # carriage returns are ordinary bytes inside a pattern given with -p (only "\n" separates -p
     # patterns); input lines may contain them anywhere but at their end (BufRead::lines strips "\r\n")
